@@ -111,6 +111,31 @@ def lean_audit(prop):
     return names, res, out if rc != 0 else ""
 
 
+def pastel_imports(mod, seen=None):
+    """Transitive closure of the Pastel.* modules imported by `mod` (read from the sources)."""
+    seen = seen if seen is not None else []
+    if mod in seen:
+        return seen
+    path = os.path.join(LEAN, *mod.split(".")) + ".lean"
+    if not os.path.exists(path):
+        return seen
+    seen.append(mod)
+    for m in re.findall(r"^import\s+(Pastel\.[A-Za-z0-9_.]+)", open(path, encoding="utf-8").read(), flags=re.M):
+        pastel_imports(m, seen)
+    return seen
+
+
+def lean_recheck(prop):
+    """Thorough tier: replay the compiled declarations of the property module and of every Pastel
+    module it depends on through leanchecker (the toolchain's independent re-checker)."""
+    mods = pastel_imports("Pastel.Props." + prop)
+    if not mods:
+        return [], True, ""
+    with Lock("lake"):
+        rc, out = run(["lake", "env", "leanchecker"] + mods, cwd=LEAN, timeout=3000)
+    return mods, rc == 0, out
+
+
 # --------------------------------------------------------------------------- Rust
 
 def harness_build():
@@ -205,7 +230,9 @@ def main(argv):
                          {"log_tail": outb[-1500:]}))
 
     # ---- 1. Lean: generated tables, theorems + model executable ----
-    gen = cfg.get("generated")
+    # every generated table is rewritten from the live code on every check, whichever property is
+    # being checked (a stale table from an earlier tree must never reach a build)
+    gen = [g for c in PROPS.values() for g in c.get("generated", [])]
     def pre():
         if gen and okb:
             for sub, rel in gen:
@@ -238,6 +265,12 @@ def main(argv):
             problems.append(("proof", "theorem %s uses axioms %s" % (n, ax), {"theorem": "Pastel.%s.%s" % (prop, n)}))
         else:
             discharged += 1
+    rechecked = []
+    if ok and tier == "thorough":
+        rechecked, okr, outr = lean_recheck(prop)
+        if not okr:
+            problems.append(("proof", "leanchecker rejects a compiled module of Pastel.Props.%s" % prop, {"log_tail": outr[-1500:]}))
+            discharged = 0
     hits = forbidden_scan()
     if hits:
         problems.append(("proof", "forbidden constructs in Lean sources: %s" % hits[:5], {"hits": hits}))
@@ -322,6 +355,7 @@ def main(argv):
         "trusted_base": COMMON_TRUST + cfg.get("trust", []),
         "theorems": [{"name": n, "axioms": axioms.get(n)} for n in names],
         "rule": cfg.get("rule", ""),
+        "leanchecker_replayed_modules": rechecked,
         "evaluations": sum(p.get("evaluations", 0) for p in parts),
         "distinct_nontrivial": sum(p.get("distinct_nontrivial", 0) for p in parts),
         "model_ops_compared": sum(p.get("model_ops", 0) for p in parts),
